@@ -288,14 +288,14 @@ fn witnesses(or: &mut Oracle) {
     let mut k = 0u64;
     for (name, n) in fams {
         for (xref_stream, indirect) in [(false, true), (true, true), (false, false), (true, false)] {
-            let opt = DocOptions { tweak: None, variant: variant_named(name, n), encrypt_metadata: !(name.starts_with("R4") || name.starts_with("R5")) || k % 2 == 0, indirect_encrypt: indirect, xref_stream, with_metadata: true, with_objstm: true };
+            let opt = DocOptions { stray_em_false: k % 8 < 4, tweak: None, variant: variant_named(name, n), encrypt_metadata: !(name.starts_with("R4") || name.starts_with("R5")) || k % 2 == 0, indirect_encrypt: indirect, xref_stream, with_metadata: true, with_objstm: true };
             files_case(or, 0xC06, 1_000_000 + k, Some(&opt));
             k += 1;
         }
     }
     // AESV2 without any /Length entry (regression witness of the 40 bit default)
     for xref_stream in [false, true] {
-        let opt = DocOptions { tweak: Some(Tweak::NoLength), variant: variant_named("R4-AES128", 16), encrypt_metadata: true, indirect_encrypt: true, xref_stream, with_metadata: true, with_objstm: true };
+        let opt = DocOptions { stray_em_false: false, tweak: Some(Tweak::NoLength), variant: variant_named("R4-AES128", 16), encrypt_metadata: true, indirect_encrypt: true, xref_stream, with_metadata: true, with_objstm: true };
         files_case(or, 0xC06, 1_000_000 + k, Some(&opt));
         k += 1;
     }
@@ -314,7 +314,7 @@ fn hostile_oracle() -> Oracle {
     ];
     for (k, (name, n, tweak)) in cases.iter().enumerate() {
         let mut rng = Rng::derive(0xC06, "c06.hostile", k as u64);
-        let opt = DocOptions { tweak: Some(*tweak), variant: variant_named(name, *n), encrypt_metadata: true, indirect_encrypt: true, xref_stream: k % 2 == 1, with_metadata: true, with_objstm: false };
+        let opt = DocOptions { stray_em_false: false, tweak: Some(*tweak), variant: variant_named(name, *n), encrypt_metadata: true, indirect_encrypt: true, xref_stream: k % 2 == 1, with_metadata: true, with_objstm: false };
         let d = build(&mut rng, &opt, b"user", b"owner");
         // V 1 ignores /Length: that document is well-formed and must simply open
         for pw in [&b"user"[..], &b"owner"[..], &b"nope"[..]] {
